@@ -16,3 +16,5 @@ def run(ctx, rep):
     more.rule_pivot_found(mod, rep)
     from ..rules import threads
     threads.rule_T3_owner_exit(mod, rep)      # a worker leaves only on a memory code: 0 < column code <= n must be recorded and reported, not treated as fatal
+    from ..rules import more
+    more.rule_snode_continue(mod, rep)
